@@ -59,14 +59,30 @@ pub struct EKey {
     bids: Vec<(u32, u32)>,
     asks: Vec<(u32, u32)>,
     bad: bool,
+    /// suffix mode: what kinds of instruction the last `suffix_k` steps held (bit mask: new order,
+    /// cancel, modify, instruction aimed at an order of the same batch, toggle). States entered by
+    /// different kinds of step are kept apart and each is expanded (state an environment or book
+    /// carries from one step to the next depends on how the book was entered, not only on the book).
+    suffix: Vec<u8>,
 }
 
 #[derive(Clone, Debug)]
 pub struct EState {
     pub key: EKey,
-    /// representative history: each step with the processing order that explained it
-    pub hist: Vec<(EAct, Vec<usize>)>,
-    pub model: RefModel,
+    /// representative history in CONCRETE form (instructions with their ids, shuffle script), so
+    /// that replaying it on a fresh real environment needs no model
+    pub hist: Vec<CStep>,
+    /// every reference state that explains what has been observed so far. Two processing orders
+    /// of a step can leave identical observations and different hidden queue orders (two re-pricing
+    /// modifies onto one level carry no stamp); both are kept until a later step tells them apart.
+    pub models: Vec<RefModel>,
+}
+
+/// one concrete step of a representative history
+#[derive(Clone, Debug)]
+pub enum CStep {
+    Toggle(bool),
+    Step { abs: Vec<AI>, cis: Vec<CI>, script: usize },
 }
 impl PartialEq for EState {
     fn eq(&self, o: &Self) -> bool {
@@ -82,7 +98,7 @@ impl Hash for EState {
 
 /// concrete instruction: (kind, id or new-order data)
 #[derive(Clone, Debug)]
-enum CI {
+pub enum CI {
     New { bid: bool, vol: u32, price: Option<u32>, id: usize },
     Cancel { id: usize },
     Modify { id: usize, price: Option<u32>, vol: Option<u32> },
@@ -105,16 +121,34 @@ pub struct EnvAbs {
     pub toggles: bool,
     pub same_batch_targets: bool,
     pub thin_pairs: bool,
+    /// orders placed and cancelled (two extra steps) before the exploration starts: the explored
+    /// histories then run on an environment that has already seen this many orders
+    pub aged: usize,
+    pub suffix_k: usize,
     pub transitions: Arc<AtomicU64>,
     pub cut: Arc<AtomicU64>,
     pub multi_candidate_steps: Arc<AtomicU64>,
     pub trading_steps: Arc<AtomicU64>,
-    pub fails: Arc<Mutex<BTreeMap<String, (String, Vec<(EAct, Vec<usize>)>)>>>,
+    pub fails: Arc<Mutex<BTreeMap<String, (String, Vec<CStep>)>>>,
 }
 
-fn key_of(m: &RefModel, bad: bool) -> EKey {
+fn key_of(m: &RefModel, bad: bool, suffix: Vec<u8>) -> EKey {
     let (trading, bids, asks) = m.live_key();
-    EKey { trading, bids, asks, bad }
+    EKey { trading, bids, asks, bad, suffix }
+}
+
+fn act_class(a: &EAct) -> u8 {
+    match a {
+        EAct::Enable | EAct::Disable => 16,
+        EAct::Step { batch, .. } => batch.iter().fold(0u8, |acc, i| {
+            acc | match i {
+                AI::Limit { .. } | AI::Market { .. } => 1,
+                AI::CancelRank { .. } => 2,
+                AI::ModifyRank { .. } => 4,
+                AI::CancelSame { .. } | AI::ModifySame { .. } => 8,
+            }
+        }),
+    }
 }
 
 fn permutations(n: usize) -> Vec<Vec<usize>> {
@@ -321,8 +355,7 @@ impl RealEnv {
 }
 
 type Verdict = Result<(), (String, String)>;
-/// verdict of a step together with the processing order that explained it
-type StepVerdict = Result<Vec<usize>, (String, String)>;
+
 
 fn l2_matches_book(o: &AssetObs) -> Verdict {
     // the level-2 record the environment hands out vs the live book's own views
@@ -374,49 +407,88 @@ fn records_grew_by_one(before: &AssetObs, after: &AssetObs, steps_after: usize) 
     Ok(())
 }
 
+fn same_hidden_state(a: &RefModel, b: &RefModel) -> bool {
+    let q = |m: &RefModel, bid: bool| -> Vec<(usize, u32, u32)> { m.queue(bid).iter().map(|r| (r.id, r.price, m.orders[r.id].vol)).collect() };
+    q(a, true) == q(b, true) && q(a, false) == q(b, false) && a.trading == b.trading && a.t == b.t && a.trades.len() == b.trades.len()
+}
+
 impl EnvAbs {
-    /// Apply one action to the real environment and to the model; returns the verdict of the step.
-    /// `judge` = false while replaying the representative history (already judged when it was built).
-    fn apply(&self, env: &mut RealEnv, m: &mut RefModel, steps_done: &mut usize, act: &EAct, known_perm: Option<&[usize]>) -> StepVerdict {
+    /// Replay one concrete step of a representative history on the real environment (no judgement,
+    /// no model: it was judged when the state was created).
+    fn replay(&self, env: &mut RealEnv, steps_done: &mut usize, st: &CStep) {
         let a = self.asset;
-        let judge = known_perm.is_none();
-        let bad = |c: &str, d: String| -> StepVerdict { Err((c.to_string(), d)) };
+        match st {
+            CStep::Toggle(on) => {
+                if *on {
+                    env.enable()
+                } else {
+                    env.disable()
+                }
+            }
+            CStep::Step { cis, script, .. } => {
+                for ci in cis {
+                    match ci {
+                        CI::New { bid, vol, price, id } => {
+                            let _ = env.place(a, *bid, *vol, 100 + *id as u32, *price);
+                        }
+                        CI::Cancel { id } => env.cancel(a, *id),
+                        CI::Modify { id, price, vol } => env.modify(a, *id, *price, *vol),
+                    }
+                }
+                let scripts = all_index_scripts(cis.len());
+                let mut rng = ScriptRng::new(scripts[*script % scripts.len()].clone(), 5);
+                env.step(&mut rng);
+                *steps_done += 1;
+            }
+        }
+    }
+
+    /// Apply and judge one action; `models` = the candidate reference states before it, replaced by
+    /// the candidates that explain the observation after it. Returns the concrete step.
+    fn apply(&self, env: &mut RealEnv, models: &mut Vec<RefModel>, steps_done: &mut usize, act: &EAct) -> Result<CStep, (String, String)> {
+        let a = self.asset;
+        let bad = |c: &str, d: String| -> Result<CStep, (String, String)> { Err((c.to_string(), d)) };
         match act {
             EAct::Enable => {
                 env.enable();
-                m.enable();
-                Ok(vec![])
+                for m in models.iter_mut() {
+                    m.enable();
+                }
+                Ok(CStep::Toggle(true))
             }
             EAct::Disable => {
                 env.disable();
-                m.disable();
-                Ok(vec![])
+                for m in models.iter_mut() {
+                    m.disable();
+                }
+                Ok(CStep::Toggle(false))
             }
             EAct::Step { batch, script } => {
-                let cis = match self.concretise(m, batch) {
+                let cis = match self.concretise(&models[0], batch) {
                     Some(c) => c,
                     None => return bad("machinery/concretise", format!("{:?}", batch)),
                 };
-                let before = if judge { Some(env.observe()) } else { None };
+                let before = env.observe();
                 // --- submissions ---
-                let mut m0 = m.clone();
+                let mut m0s: Vec<RefModel> = models.clone();
                 for ci in &cis {
                     match ci {
                         CI::New { bid, vol, price, id } => {
                             let r = env.place(a, *bid, *vol, 100 + *id as u32, *price);
-                            let mid = m0.create(*bid, *vol, 100 + *id as u32, *price);
-                            if judge {
-                                match (r, mid) {
-                                    (Ok((ra, rid)), Ok(mi)) if rid == *id && mi == *id && (ra == a || !self.multi) => {}
-                                    (r, mi) => return bad("submit/order-id", format!("place_order returned {:?}, expected id {} (reference {:?})", r, id, mi)),
-                                }
+                            let mut mid = Ok(0);
+                            for m0 in m0s.iter_mut() {
+                                mid = m0.create(*bid, *vol, 100 + *id as u32, *price);
+                            }
+                            match (r, mid) {
+                                (Ok((ra, rid)), Ok(mi)) if rid == *id && mi == *id && (ra == a || !self.multi) => {}
+                                (r, mi) => return bad("submit/order-id", format!("place_order returned {:?}, expected id {} (reference {:?})", r, id, mi)),
                             }
                         }
                         CI::Cancel { id } => env.cancel(a, *id),
                         CI::Modify { id, price, vol } => env.modify(a, *id, *price, *vol),
                     }
                 }
-                if let Some(before) = &before {
+                {
                     // C10: nothing but appended New records
                     let mid = env.observe();
                     for x in 0..mid.len() {
@@ -437,45 +509,43 @@ impl EnvAbs {
                     }
                 }
                 // --- the step ---
-                let start = m.t;
+                let start = models[0].t;
+                let n_trades_before = models[0].trades.len();
                 let scripts = all_index_scripts(cis.len());
                 let mut rng = ScriptRng::new(scripts[*script % scripts.len()].clone(), 5);
                 env.step(&mut rng);
                 *steps_done += 1;
-                if m.trading {
+                if models[0].trading {
                     self.trading_steps.fetch_add(1, Ordering::Relaxed);
                 }
                 // --- candidates on the reference engine ---
-                let run_perm = |perm: &[usize]| -> RefModel {
-                    let mut mm = m0.clone();
-                    mm.reset_trade_vol();
-                    for (i, &k) in perm.iter().enumerate() {
-                        mm.set_time(start + i as u64);
-                        match &cis[k] {
-                            CI::New { id, .. } => mm.place(*id),
-                            CI::Cancel { id } => mm.cancel(*id),
-                            CI::Modify { id, price, vol } => mm.modify(*id, *price, *vol),
-                        }
-                    }
-                    mm.set_time(start + self.step_size);
-                    mm
-                };
-                if let Some(perm) = known_perm {
-                    // replay of an already judged step: the model follows the recorded order
-                    *m = run_perm(perm);
-                    return Ok(perm.to_vec());
-                }
                 let after = env.observe();
                 let idx = if self.multi { a } else { 0 };
-                let mut matching: Vec<(RefModel, Vec<usize>)> = Vec::new();
+                let mut matching: Vec<RefModel> = Vec::new();
                 let mut first_err: Option<(String, String)> = None;
-                for perm in permutations(cis.len()) {
-                    let mm = run_perm(&perm);
-                    match mm.compare(&after[idx].book, LEVELS) {
-                        Ok(()) => matching.push((mm, perm.clone())),
-                        Err(e) => {
-                            if first_err.is_none() {
-                                first_err = Some(e);
+                for m0 in &m0s {
+                    for perm in permutations(cis.len()) {
+                        let mut mm = m0.clone();
+                        mm.reset_trade_vol();
+                        for (i, &k) in perm.iter().enumerate() {
+                            mm.set_time(start + i as u64);
+                            match &cis[k] {
+                                CI::New { id, .. } => mm.place(*id),
+                                CI::Cancel { id } => mm.cancel(*id),
+                                CI::Modify { id, price, vol } => mm.modify(*id, *price, *vol),
+                            }
+                        }
+                        mm.set_time(start + self.step_size);
+                        match mm.compare(&after[idx].book, LEVELS) {
+                            Ok(()) => {
+                                if !matching.iter().any(|x| same_hidden_state(x, &mm)) {
+                                    matching.push(mm);
+                                }
+                            }
+                            Err(e) => {
+                                if first_err.is_none() {
+                                    first_err = Some(e);
+                                }
                             }
                         }
                     }
@@ -484,22 +554,21 @@ impl EnvAbs {
                     let (c, d) = first_err.unwrap_or(("?".into(), "?".into()));
                     return bad(
                         "sched/no-schedule-explains-step",
-                        format!("batch {:?}: no processing order, replayed on the reference engine at times start+i, gives the environment's book (first candidate differs in {}: {})", batch, c, d),
+                        format!("batch {:?}: no processing order, replayed on the reference engine at times start+i (from any reference state consistent with the earlier steps), gives the environment's book (first candidate differs in {}: {})", batch, c, d),
                     );
                 }
                 if matching.len() > 1 {
                     self.multi_candidate_steps.fetch_add(1, Ordering::Relaxed);
                 }
-                let (m_new, perm) = matching.swap_remove(0);
-                *m = m_new;
-                let before = before.unwrap();
+                *models = matching;
+                let m = &models[0];
                 // C08: clock, per-step traded volume
                 if after[idx].book.time != start + self.step_size {
                     return bad("sched/clock", format!("clock {} after a step from {} with step size {}", after[idx].book.time, start, self.step_size));
                 }
                 // (the step's trades = the records appended during it; with more instructions than
                 // time units an earlier step's last stamp can equal this step's first)
-                let step_tv: u64 = m.trades[m0.trades.len()..].iter().map(|t| t.vol as u64).sum();
+                let step_tv: u64 = m.trades[n_trades_before..].iter().map(|t| t.vol as u64).sum();
                 if after[idx].book.views.trade_vol as u64 != step_tv {
                     return bad("sched/step-trade-volume", format!("traded volume after the step {} but the step's trades sum to {}", after[idx].book.views.trade_vol, step_tv));
                 }
@@ -522,18 +591,58 @@ impl EnvAbs {
                         }
                     }
                 }
-                Ok(perm)
+                Ok(CStep::Step { abs: batch.clone(), cis, script: *script })
             }
         }
     }
 
     fn fresh(&self) -> (RealEnv, RefModel, usize) {
-        if self.multi {
+        let (mut env, mut m, mut steps) = if self.multi {
             let env = self.make_env();
             (RealEnv::Multi(env), RefModel::new(self.step_size, 1, self.start_trading), 0)
         } else {
             (RealEnv::Single(AnyEnv::<1, LEVELS>::make(false, 0, &[1], self.step_size, self.start_trading)), RefModel::new(0, 1, self.start_trading), 0)
+        };
+        if self.aged > 0 {
+            // `aged` bids far below the explored prices, placed in one step and cancelled in the
+            // next (processing order read off the stamps, so nothing about the shuffle is assumed)
+            let a = self.asset;
+            let mut ids = Vec::new();
+            for i in 0..self.aged {
+                let id = m.create(true, 1, 7, Some(1)).unwrap();
+                let r = env.place(a, true, 1, 7, Some(1)).unwrap();
+                assert_eq!(r.1, id);
+                ids.push(id);
+                let _ = i;
+            }
+            for round in 0..2 {
+                if round == 1 {
+                    for id in &ids {
+                        env.cancel(a, *id);
+                    }
+                }
+                let start = m.t;
+                let mut rng = ScriptRng::new(vec![], 3 + round as u64);
+                env.step(&mut rng);
+                steps += 1;
+                let obs = env.observe();
+                let book = &obs[if self.multi { a } else { 0 }].book;
+                // replay on the model in stamp order
+                let mut order: Vec<(u64, usize)> = ids.iter().map(|id| (if round == 0 { book.orders[*id].arr } else { book.orders[*id].end }, *id)).collect();
+                order.sort();
+                m.reset_trade_vol();
+                for (t, id) in order {
+                    m.set_time(t);
+                    if round == 0 {
+                        m.place(id);
+                    } else {
+                        m.cancel(id);
+                    }
+                }
+                m.set_time(start + self.step_size);
+            }
         }
+        (env, m, steps)
     }
 }
 
@@ -543,7 +652,7 @@ impl Model for EnvAbs {
 
     fn init_states(&self) -> Vec<EState> {
         let (_, m, _) = self.fresh();
-        vec![EState { key: key_of(&m, false), hist: vec![], model: m }]
+        vec![EState { key: key_of(&m, false, vec![]), hist: vec![], models: vec![m] }]
     }
 
     fn actions(&self, s: &EState, acts: &mut Vec<EAct>) {
@@ -562,49 +671,57 @@ impl Model for EnvAbs {
     }
 
     fn next_state(&self, last: &EState, act: EAct) -> Option<EState> {
-        // caps are decided on a model copy first (any processing order: the resting set after the
-        // step can depend on it, so every permutation must stay inside)
+        // caps are decided on model copies first (any candidate, any processing order: the resting
+        // set after the step can depend on it, so every one must stay inside)
         if let EAct::Step { batch, .. } = &act {
-            let cis = self.concretise(&last.model, batch)?;
-            let mut m0 = last.model.clone();
-            for ci in &cis {
-                if let CI::New { bid, vol, price, id } = ci {
-                    let _ = m0.create(*bid, *vol, 100 + *id as u32, *price);
-                }
-            }
-            for perm in permutations(cis.len()) {
-                let mut mm = m0.clone();
-                for (i, &k) in perm.iter().enumerate() {
-                    mm.set_time(last.model.t + i as u64);
-                    match &cis[k] {
-                        CI::New { id, .. } => mm.place(*id),
-                        CI::Cancel { id } => mm.cancel(*id),
-                        CI::Modify { id, price, vol } => mm.modify(*id, *price, *vol),
+            let cis = self.concretise(&last.models[0], batch)?;
+            for cand in &last.models {
+                let mut m0 = cand.clone();
+                for ci in &cis {
+                    if let CI::New { bid, vol, price, id } = ci {
+                        let _ = m0.create(*bid, *vol, 100 + *id as u32, *price);
                     }
                 }
-                let over = mm.bids.len() > self.max_rest || mm.asks.len() > self.max_rest || mm.orders.iter().any(|o| o.status == ACTIVE && o.vol > self.max_vol);
-                if over {
-                    self.cut.fetch_add(1, Ordering::Relaxed);
-                    return None;
+                for perm in permutations(cis.len()) {
+                    let mut mm = m0.clone();
+                    for (i, &k) in perm.iter().enumerate() {
+                        mm.set_time(cand.t + i as u64);
+                        match &cis[k] {
+                            CI::New { id, .. } => mm.place(*id),
+                            CI::Cancel { id } => mm.cancel(*id),
+                            CI::Modify { id, price, vol } => mm.modify(*id, *price, *vol),
+                        }
+                    }
+                    let over = mm.bids.len() > self.max_rest || mm.asks.len() > self.max_rest || mm.orders.iter().any(|o| o.status == ACTIVE && o.vol > self.max_vol);
+                    if over {
+                        self.cut.fetch_add(1, Ordering::Relaxed);
+                        return None;
+                    }
                 }
             }
         }
         self.transitions.fetch_add(1, Ordering::Relaxed);
         let mut hist = last.hist.clone();
         let res = util::subject(|| {
-            let (mut env, mut m, mut steps) = self.fresh();
-            for (h, perm) in &last.hist {
-                self.apply(&mut env, &mut m, &mut steps, h, Some(perm))?;
+            let (mut env, _, mut steps) = self.fresh();
+            for h in &last.hist {
+                self.replay(&mut env, &mut steps, h);
             }
-            let v = self.apply(&mut env, &mut m, &mut steps, &act, None);
-            v.map(|perm| (m, perm))
+            let mut models = last.models.clone();
+            let v = self.apply(&mut env, &mut models, &mut steps, &act);
+            v.map(|cs| (models, cs))
         });
-        let (m2, perm, fail) = match res {
-            Ok(Ok((m, perm))) => (m, perm, None),
-            Ok(Err((c, d))) => (last.model.clone(), vec![], Some((c, d))),
-            Err(msg) => (last.model.clone(), vec![], Some((format!("panic/{}", util::panic_sig(&msg)), format!("the library panicked during a valid step: {}", msg)))),
+        let (models, cstep, fail) = match res {
+            Ok(Ok((m, cs))) => (m, Some(cs), None),
+            Ok(Err((c, d))) => (last.models.clone(), None, Some((c, d))),
+            Err(msg) => (last.models.clone(), None, Some((format!("panic/{}", util::panic_sig(&msg)), format!("the library panicked during a valid step: {}", msg)))),
         };
-        hist.push((act.clone(), perm));
+        let cstep = cstep.unwrap_or_else(|| match &act {
+            EAct::Enable => CStep::Toggle(true),
+            EAct::Disable => CStep::Toggle(false),
+            EAct::Step { batch, script } => CStep::Step { abs: batch.clone(), cis: self.concretise(&last.models[0], batch).unwrap_or_default(), script: *script },
+        });
+        hist.push(cstep);
         let bad = fail.is_some();
         if let Some((c, d)) = fail {
             let mut g = self.fails.lock().unwrap();
@@ -613,7 +730,17 @@ impl Model for EnvAbs {
                 *e = (d, hist.clone());
             }
         }
-        Some(EState { key: key_of(&m2, bad), hist, model: m2 })
+        let mut suffix = last.key.suffix.clone();
+        if self.suffix_k > 0 {
+            suffix.push(act_class(&act));
+            if suffix.len() > self.suffix_k {
+                suffix.remove(0);
+            }
+        }
+        // (candidates are ordered canonically so that the key does not depend on enumeration order)
+        let mut models = models;
+        models.sort_by_key(|m| format!("{:?}", m.live_key()));
+        Some(EState { key: key_of(&models[0], bad, suffix), hist, models })
     }
 
     fn properties(&self) -> Vec<Property<Self>> {
@@ -641,6 +768,10 @@ pub struct EnvClosureCfg {
     pub prices: usize,
     /// pairs of instructions over a thinned alphabet (quick tier)
     pub thin_pairs: bool,
+    /// dead orders the environment has already seen when the exploration starts
+    pub aged: usize,
+    /// kinds of instruction of the last k steps in the key (0 = live book only)
+    pub suffix_k: usize,
 }
 
 /// Run the environment-level closure and fold the result into a property's outcome. `sig_prefix`
@@ -663,6 +794,8 @@ pub fn run_env_closure(out: &mut Outcome, c: &EnvClosureCfg) {
         toggles: c.toggles,
         same_batch_targets: true,
         thin_pairs: c.thin_pairs,
+        aged: c.aged,
+        suffix_k: c.suffix_k,
         transitions: Arc::new(AtomicU64::new(0)),
         cut: Arc::new(AtomicU64::new(0)),
         multi_candidate_steps: Arc::new(AtomicU64::new(0)),
@@ -702,7 +835,7 @@ pub fn run_env_closure(out: &mut Outcome, c: &EnvClosureCfg) {
             "engine": "envabs (stateright BFS closure through the real environment)", "label": c.label,
             "environment": if c.multi { format!("MarketEnv<2,3>, explored asset {}, the other asset holds a static book", c.asset) } else { "Env<3>".to_string() },
             "caps": {"max_resting_per_side": c.max_rest, "max_volume": c.max_vol, "grid_prices": c.prices, "max_batch": c.max_batch, "pairs_over_thinned_alphabet": c.thin_pairs},
-            "step_size": c.step_size, "trading_at_construction": c.start_trading, "toggles": c.toggles,
+            "step_size": c.step_size, "trading_at_construction": c.start_trading, "toggles": c.toggles, "orders_placed_and_cancelled_before_the_exploration": c.aged, "instruction_kinds_of_the_last_steps_in_the_key": c.suffix_k,
             "actions": "every batch of <= max_batch instructions (limit/market orders, cancel and modify by queue rank, cancel/modify of an order of the same batch) x every shuffle index script; trading toggles between steps",
             "unique_abstract_states": unique, "steps_executed_on_real_environment": tr.load(Ordering::Relaxed), "cut_by_caps": cut.load(Ordering::Relaxed),
             "steps_explained_by_more_than_one_schedule": mc.load(Ordering::Relaxed), "max_depth": depth, "wall_s": (wall * 100.0).round() / 100.0,
@@ -719,7 +852,7 @@ pub fn run_env_closure(out: &mut Outcome, c: &EnvClosureCfg) {
             &sig,
             detail,
             json!({"engine": "envabs", "label": c.label, "multi_asset": c.multi, "asset": c.asset, "step_size": c.step_size, "trading_at_construction": c.start_trading,
-                   "steps": hist.iter().map(|(a, perm)| format!("{:?} processed in order {:?}", a, perm)).collect::<Vec<_>>()}),
+                   "steps": hist.iter().map(|h| match h { CStep::Toggle(on) => format!("trading {}", if *on { "enabled" } else { "disabled" }), CStep::Step { abs, cis, script } => format!("step: batch {:?} = {:?}, shuffle script #{}", abs, cis, script) }).collect::<Vec<_>>()}),
         );
     }
 }
